@@ -46,6 +46,7 @@ int main(int argc, char **argv)
     return 3;
   }
   if (args.nshards < 1) args.nshards = 1;
+  if (std::string(args.get("malloc0")) == "ptr") malloc0_returns_pointer() = true; // diagnostic variant, not used by the plan
   Engine eng(*fam, args);
   if (!args.replay.empty()) {
     return eng.replay(args.replay);
